@@ -203,6 +203,8 @@ package store
 //@ iface (repo Repo) blobList(locked bool) (dl []digest.Digest, err error)
 //@   modifies ghost(fault), alloc, ghost(fswrites)
 //@   ensures [fs-policy]{C14} !fsWritable() ==> fswrites() == old(fswrites())
+//@   -- both implementations list parsed digests only (unparsable directory entries are skipped)
+//@   ensures [listed-digests-valid] err == nil ==> forall k: int :: 0 <= k && k < len(dl) ==> digestOK(dl[k])
 
 //@ iface (repo Repo) blobCreate(locked bool, opts []BlobOpt) (bc BlobCreator, sessionID string, err error)
 //@   modifies ghost(fault), ghost(blobReady), alloc, ghost(fswrites)
@@ -311,13 +313,27 @@ package store
 //@   assert [new-upload-tee]{C01} before call Cache.Set#1: dirUploadInv(bc)
 //@   assert [upload-only-when-writable]{C14} before call Cache.Set#1: fsWritable()
 
+//@ -- C01 / C10, refinement of the interface clause "the reader handed out for d reads the blob stored under d" for the
+//@ -- directory store: the file that is opened (and the one whose age is reported, and the one that is removed) is
+//@ -- blobs/<algorithm>/<hex> of the digest asked for, below the repository's own directory
+//@ pred blobFile(root, d) := pathJoin(pathJoin(pathJoin(root, "blobs"), algOf(d)), hexOf(d))
+//@ func (dr *dirRepo) blobGet(d digest.Digest, locked bool) (rdr io.ReadSeekCloser, err error)
+//@   assert [opens-the-file-of-the-digest]{C01,C10} before "os.Open(": arg0 == blobFile(dr.path, d)
+//@ func (dr *dirRepo) blobMeta(d digest.Digest, locked bool) (m blobMeta, err error)
+//@   assert [stats-the-file-of-the-digest]{C05,C10} before "os.Stat(": arg0 == blobFile(dr.path, d)
+//@ func (dr *dirRepo) blobDelete(d digest.Digest, locked bool) (err error)
+//@   assert [removes-the-file-of-the-digest]{C06,C10} before "os.Remove(": arg0 == blobFile(dr.path, d)
+
 //@ -- C06 (and C10: both stores answer alike): a blob that was deleted is gone for every later look-up.  In a memory store
 //@ -- over a directory the nil entry is what hides the copy in the directory; without a directory the entry is dropped
 //@ func (mr *memRepo) blobDelete(d digest.Digest, locked bool) (err error)
+//@   assert [probes-the-file-of-the-digest]{C06,C10} before "os.Stat(": arg0 == blobFile(mr.path, d)
 //@   ensures [deleted-blob-stays-hidden]{C06,C10} err == nil ==> (mr.path != "" ==> (d in mr.blobs) && mr.blobs[d] == nil) && (mr.path == "" ==> !(d in mr.blobs))
 //@ func (mr *memRepo) blobGet(d digest.Digest, locked bool) (rdr io.ReadSeekCloser, err error)
+//@   assert [opens-the-file-of-the-digest]{C01,C10} before "os.Open(": arg0 == blobFile(mr.path, d)
 //@   ensures [hidden-blob-is-not-served]{C06,C10} old((d in mr.blobs) && mr.blobs[d] == nil) ==> err != nil && rdr == nil
 //@ func (mr *memRepo) blobMeta(d digest.Digest, locked bool) (m blobMeta, err error)
+//@   assert [stats-the-file-of-the-digest]{C05,C10} before "os.Stat(": arg0 == blobFile(mr.path, d)
 //@   ensures [hidden-blob-has-no-meta]{C06,C10} old((d in mr.blobs) && mr.blobs[d] == nil) ==> err != nil
 
 //@ func (mr *memRepo) blobCreate(locked bool, opts []BlobOpt) (bc BlobCreator, sessionID string, err error)
@@ -409,6 +425,16 @@ package store
 //@ func repoGarbageCollect(repo Repo, conf config.Config, index types.Index, locked bool) (out types.Index, mod bool, err error)
 //@   requires [conf-defaulted] config.defaulted(conf)
 //@   requires [repo] repo != nil
+//@   -- C06 (and C18): the index handed in is well-formed (the repository objects keep theirs so), every removal keeps it
+//@   -- so, and what is returned has no entry left whose blob is not in the blob list: every digest of the index is
+//@   -- recorded in inIndex by the first loop, and the last loop removes each recorded digest that has no blob
+//@   requires [index-wf]{C18} types.wfIndex(index)
+//@   loop 1: invariant [recorded]{C06} inIndex != nil && forall k: int :: 0 <= k && k <= rangeindex && k < len(index.Manifests) ==> inIndex[index.Manifests[k].Digest]
+//@   loop 2,3,4,5,6: invariant [recorded]{C06} inIndex != nil && forall k: int :: 0 <= k && k < len(index.Manifests) ==> inIndex[index.Manifests[k].Digest]
+//@   loop 1,2,3,4,5,6: invariant [index-wf]{C18,C06} types.wfIndex(index)
+//@   loop 5: invariant [listed-digests-valid]{C06} forall k: int :: 0 <= k && k < len(dl) ==> digestOK(dl[k])
+//@   loop 6: invariant [visited-have-blobs]{C06} forall k: int :: 0 <= k && k < len(index.Manifests) && visited[index.Manifests[k].Digest] && index.Manifests[k].Digest != "" ==> blobExists[index.Manifests[k].Digest]
+//@   ensures [no-entry-without-blob]{C06} err == nil ==> forall k: int :: 0 <= k && k < len(out.Manifests) && out.Manifests[k].Digest != "" ==> blobExists[out.Manifests[k].Digest]
 //@   assume [readable-is-stable] after "repo.blobGet(d.Digest, locked)": (ret1 == nil) <==> gcReadable(d#2.Digest)
 //@   assume [index-decoded-once] after "Decode(&man)"#1: ret == nil && br != nil && br.of == d#2.Digest ==> len(man.Manifests) == gcIdxN(d#2.Digest) &&
 //@             (forall k: int :: 0 <= k && k < len(man.Manifests) ==> man.Manifests[k].Digest == gcIdxChild(d#2.Digest, k) &&
@@ -482,6 +508,10 @@ package store
 //@                walked[keyOf(walked, subjects[gcImgConfig(x)].Digest, mtKind(subjects[gcImgConfig(x)].MediaType))] || !gcReadable(subjects[gcImgConfig(x)].Digest)) &&
 //@             (forall x: digest.Digest, j: int :: {gcImgLayer(x, j)} walked[keyOf(walked, x, 2)] && gcClean(x, 2) && 0 <= j && j < gcImgN(x) && (gcImgLayer(x, j) in subjects) ==>
 //@                walked[keyOf(walked, subjects[gcImgLayer(x, j)].Digest, mtKind(subjects[gcImgLayer(x, j)].MediaType))] || !gcReadable(subjects[gcImgLayer(x, j)].Digest))
+//@   -- C06: when a blob is removed the index no longer resolves its digest, neither at the top level nor as a child record
+//@   assert [unlisted-digest-is-not-resolvable]{C06} uses(Index.GetDesc:digest-lookup-exact, 5:listed-digests-valid) after "index.GetDesc(d.String())": ret1 != nil ==> !types.hasDigest(index, d#3) && !types.hasChild(index, d#3)
+//@   assert [removed-entry-is-not-resolvable]{C06} uses(Index.RmDesc:no-ref-left, 5:listed-digests-valid) after "index.RmDesc(types.Descriptor{Digest: d})"#1: !types.hasDigest(index, d#3) && !types.hasChild(index, d#3)
+//@   assert [removed-blob-is-not-resolvable]{C06} uses(assert.unlisted-digest-is-not-resolvable, assert.removed-entry-is-not-resolvable) before "blobDelete(d, locked)": !types.hasDigest(index, d#3) && !types.hasChild(index, d#3)
 //@   assert [removes-only-unmarked-blobs]{C05} before "blobDelete(d, locked)": !seen[d#3]
 //@   assert [removes-only-unmarked-entries]{C05} before call Index.RmDesc#2: !seen[d#3]
 //@   assert [removes-only-blobless-entries]{C05} before call Index.RmDesc#1: !blobExists[d#4]
